@@ -170,6 +170,10 @@ def compare(stream, chunks, api, fire, skip):
 def chunkings(stream, rnd, with_timeouts=True):
     yield [stream]
     yield [stream[i:i + 1] for i in range(len(stream))]
+    if len(stream) > 6:
+        # several short reads followed by a timeout inside one field, then the rest (retry after a multi-chunk partial read)
+        a, b = rnd.randint(1, min(len(stream) - 3, 12)), rnd.randint(1, 3)
+        yield [stream[:a], stream[a:a + b], stream[a + b:a + b + 1], "timeout", stream[a + b + 1:]]
     for _ in range(3):
         cuts = sorted(rnd.sample(range(1, max(2, len(stream))), min(len(stream) - 1, rnd.randint(1, 6)))) if len(stream) > 2 else []
         parts, prev = [], 0
@@ -190,6 +194,25 @@ def gen_stream(rnd, hint=None):
     """Frame stream emphasising boundaries; hint = dict(opcode, fin, length, code ...) from a solver model."""
     frames = []
     hint = hint or {}
+    special = rnd.random()
+    if special < 0.08:
+        # a text message whose fragments cut a code point, with control frames in between, followed by another message
+        body = "aé€😀z".encode("utf-8")
+        cuts = sorted(rnd.sample(range(1, len(body)), rnd.randint(1, 3)))
+        parts = [body[i:j] for i, j in zip([0] + cuts, cuts + [len(body)])]
+        out = b""
+        for k, part in enumerate(parts):
+            out += S.rfc_encode(1 if k == len(parts) - 1 else 0, 1 if k == 0 else 0, part)
+            if rnd.random() < 0.5:
+                out += S.rfc_encode(1, 9, bytes(rnd.randrange(256) for _ in range(rnd.choice([0, 1, 124, 125]))))
+        return out + S.rfc_encode(1, 2, b"\x00\xff")
+    if special < 0.12:
+        # long masked frames across the 16-bit / 64-bit boundary (unmasking of long payloads), back to back
+        out = b""
+        for ln in rnd.sample([65535, 65536, 65537, 70001, 131075], 2):
+            key = bytes(rnd.randrange(1, 256) for _ in range(4))
+            out += S.rfc_encode(1, 2, bytes((i * 7 + ln) % 251 for i in range(ln)), key)
+        return out + S.rfc_encode(1, 1, b"end")
     n = rnd.randint(1, 5)
     for i in range(n):
         op = rnd.choice([0, 1, 2, 8, 9, 10, 1, 2, 0, 9, rnd.randint(0, 15)])
